@@ -108,8 +108,13 @@ def jcos(x):
 
 
 def jsqrt(x):
+    """sqrt is correctly rounded; an argument error e moves the result by at most e / (2 sqrt(lowest possible argument))."""
     r = iv.sqrt(x.v)
-    return J(r, x.d1 / (2 * r), x.d2 / (2 * r) - x.d1 * x.d1 / (4 * r * r * r), 0.0)
+    low = x.v.a - x.err
+    if not (low > 0):
+        raise ZeroDivisionError("sqrt argument reaches 0 (error bound unbounded)")
+    err = float(x.err / (2 * iv.sqrt(low)).a + U * mag(r))
+    return J(r, x.d1 / (2 * r), x.d2 / (2 * r) - x.d1 * x.d1 / (4 * r * r * r), err)
 
 
 def jasin(x):
